@@ -36,6 +36,9 @@ JudgeRun(e) ==
     \o Fails(e, 0, "ReactionCountIsInputCount",
              e.ninputs > 0 => ("reaction_cnt" \in DOMAIN e.stats /\ e.stats["reaction_cnt"] = e.ninputs))
     \o JudgeRows(e, LAMBDA j : e.args[j], LAMBDA j, x : TRUE)
+    \* the default output form (list of reaction strings) is the reaction column of the row form
+    \o Fails(e, 0, "PlainOutputMatchesRows",
+             e.plain_used => (Len(e.plain) = Len(e.rows) /\ \A j \in 1..Len(e.rows) : e.plain[j] = e.rows[j].reaction))
 
 JudgeCli(e) ==
        Fails(e, 0, "CallDoesNotRaise", e.raised = "")
